@@ -267,6 +267,18 @@ func NewFloatFromString(typ *types.FloatType, s string) (*Float, error) {
 		if err != nil {
 			return nil, errors.WithStack(err)
 		}
+		// Round the exact value of the literal once, to the nearest double (ties
+		// to even). big.ParseFloat rounds to 53 bits also where a double has
+		// fewer (subnormal numbers are then rounded a second time when printed),
+		// and is not correctly rounded for literals with many fractional digits.
+		if q, ok := new(big.Rat).SetString(s); ok && !x.IsInf() {
+			f, _ := q.Float64()
+			if f == 0 && x.Signbit() {
+				// Keep the sign of zero.
+				f = math.Copysign(0, -1)
+			}
+			x.SetFloat64(f)
+		}
 		c := &Float{
 			Typ: typ,
 			X:   x,
